@@ -155,7 +155,12 @@ REASONS = {
 def reason_class(err):
     e = (err or "").lower()
     if "certificate verify failed:" in e:
-        return REASONS.get(e.split("certificate verify failed:", 1)[1].strip(), "other:" + e[-50:])
+        txt = e.split("certificate verify failed:", 1)[1].strip()
+        if txt in REASONS:
+            return REASONS[txt]
+        for k, v in REASONS.items():  # newer libssl builds append advice ("... or the system clock is incorrect")
+            if txt.startswith(k):
+                return v
     return "other:" + e[-50:]
 
 
